@@ -31,6 +31,9 @@ type Target struct {
 	PkgName  string   // package name
 	Harness  []string // real harness files (under /verif/harness/...)
 	ExtraEnv []string
+	// limits of native replays (defaults: 120 s, no memory limit)
+	ReplayTimeoutS int
+	ReplayMemKB    int
 }
 
 func GoEnv() []string {
@@ -202,6 +205,8 @@ type NativeResult struct {
 	AssumeFailed int      `json:"assume_failed"`
 	Error        string   `json:"error"`
 	Raw          string   `json:"-"`
+	// Killed: the run produced no result because it hit the time or memory limit
+	Killed bool `json:"-"`
 }
 
 var resRe = regexp.MustCompile(`(?m)^VERIF-RESULT: (.*)$`)
@@ -230,10 +235,21 @@ func (t *Target) Replay(harness, replayPath string) (*NativeResult, error) {
 	var out bytes.Buffer
 	cmd.Stdout = &out
 	cmd.Stderr = &out
-	cmd.Run()
+	runErr := cmd.Run()
 	m := resRe.FindStringSubmatch(out.String())
 	if m == nil {
-		return &NativeResult{Raw: out.String()}, fmt.Errorf("replay produced no result:\n%s", out.String())
+		nr := &NativeResult{Raw: out.String()}
+		if ee, ok := runErr.(*exec.ExitError); ok && (ee.ExitCode() == 124 || ee.ExitCode() == 137 || strings.Contains(out.String(), "out of memory") || strings.Contains(out.String(), "cannot allocate memory")) {
+			nr.Killed = true
+		}
+		raw := out.String()
+		if os.Getenv("GV_DEBUG_NATIVE") != "" {
+			fmt.Fprintf(os.Stderr, "NATIVE runErr=%v\n%s\n", runErr, raw[:min(len(raw), 1500)])
+		}
+		if len(raw) > 4000 {
+			raw = raw[:4000] + " ..."
+		}
+		return nr, fmt.Errorf("replay produced no result:\n%s", raw)
 	}
 	var nr NativeResult
 	if err := json.Unmarshal([]byte(m[1]), &nr); err != nil {
@@ -287,7 +303,14 @@ func (t *Target) BuildReplayBinary(bin, tmp string) error {
 
 // RunReplayBinary runs one harness natively on a replay file.
 func (t *Target) RunReplayBinary(bin, harness, replayPath string) (*NativeResult, error) {
-	cmd := exec.Command("timeout", "120", bin, "-test.run", "^TestVerifReplay$", "-test.v")
+	tmo := 120
+	if t.ReplayTimeoutS > 0 {
+		tmo = t.ReplayTimeoutS
+	}
+	cmd := exec.Command("timeout", fmt.Sprint(tmo), bin, "-test.run", "^TestVerifReplay$", "-test.v")
+	if t.ReplayMemKB > 0 {
+		cmd = exec.Command("sh", "-c", fmt.Sprintf("ulimit -v %d; exec timeout %d %s -test.run '^TestVerifReplay$' -test.v", t.ReplayMemKB, tmo, bin))
+	}
 	cmd.Dir = t.PkgDir
 	// harnesses that need files (C14 pipeline) create them under TMPDIR; it goes away with the run
 	td, _ := os.MkdirTemp(filepath.Dir(bin), "run")
@@ -296,10 +319,18 @@ func (t *Target) RunReplayBinary(bin, harness, replayPath string) (*NativeResult
 	var out bytes.Buffer
 	cmd.Stdout = &out
 	cmd.Stderr = &out
-	cmd.Run()
+	runErr := cmd.Run()
 	m := resRe.FindStringSubmatch(out.String())
 	if m == nil {
-		return &NativeResult{Raw: out.String()}, fmt.Errorf("replay produced no result:\n%s", out.String())
+		nr := &NativeResult{Raw: out.String()}
+		if ee, ok := runErr.(*exec.ExitError); ok && (ee.ExitCode() == 124 || ee.ExitCode() == 137 || strings.Contains(out.String(), "out of memory") || strings.Contains(out.String(), "cannot allocate memory")) {
+			nr.Killed = true
+		}
+		raw := out.String()
+		if len(raw) > 4000 {
+			raw = raw[:4000] + " ..."
+		}
+		return nr, fmt.Errorf("replay produced no result:\n%s", raw)
 	}
 	var nr NativeResult
 	if err := json.Unmarshal([]byte(m[1]), &nr); err != nil {
